@@ -44,13 +44,15 @@ def r1(ctx, R):
             hits = [h.target for h in P.hits if h.params()]
             R.check(not hits, f'{cn}.{meth} :: the argument is not modified', w, 'no in-place write into the argument', hits)
             # the target grid: restriction allocates on the coarse problem, prolongation on the fine one
-            init = [ast.unparse(s.value) for s in defs if 'prob.init' in ast.unparse(s.value)]
-            if init:
-                R.check(all(f'self.{side}_prob.init' in x for x in init), f'{cn}.{meth} :: result lives on the {side} grid', w, f'...(self.{side}_prob.init ...)', init)
+            init = [ast.unparse(s.value) for s in defs]
+            if (rel, cn) in CLASSES[:3]:
+                R.check(bool(init) and all(re.match(rf'[\w()]+\(self\.{side}_prob\.init\b', x) for x in init), f'{cn}.{meth} :: result is allocated on the {side} grid', w, f'<type>(self.{side}_prob.init ...)', init)
+            else:
+                R.check(bool(init) and all(re.fullmatch(rf'[\w()]+\({arg}\)', x) for x in init), f'{cn}.{meth} :: no coarsening: the result is a copy of the argument', w, f'<type>({arg})', init)
 
 
 def _swap_components(s, a, b):
-    return re.sub(rf'\b({a}|{b})\b', lambda m: b if m.group(1) == a else a, s)
+    return re.sub(rf'({a}|{b})', lambda m: b if m.group(1) == a else a, s)
 
 
 @rule('C11', 'C11.R2', 'components are treated alike: the same operator is applied to every component (generic loop over .components, or identical arms up to the component name)', floor=6)
@@ -76,8 +78,8 @@ def r2(ctx, R):
                 continue
             # explicit arms: the statements mentioning .expl must be the .impl statements with the names swapped
             stm = [s for s in walk_no_nested(fn) if isinstance(s, (ast.Assign, ast.AugAssign))]
-            impl = sorted(_swap_components(ast.unparse(s), 'impl', 'expl') for s in stm if re.search(r'\bimpl\b', ast.unparse(s)) and not re.search(r'\bexpl\b', ast.unparse(s)))
-            expl = sorted(ast.unparse(s) for s in stm if re.search(r'\bexpl\b', ast.unparse(s)) and not re.search(r'\bimpl\b', ast.unparse(s)))
+            impl = sorted(_swap_components(ast.unparse(s), 'impl', 'expl') for s in stm if 'impl' in ast.unparse(s).replace('imex', '') and 'expl' not in ast.unparse(s))
+            expl = sorted(ast.unparse(s) for s in stm if 'expl' in ast.unparse(s) and 'impl' not in ast.unparse(s).replace('imex', ''))
             if not impl and not expl:
                 R.exc(f'{cn}.{meth} :: single-component data only', w, 'no multi-component arm in this method')
                 continue
@@ -138,3 +140,100 @@ def r5(ctx, R):
         kr = [c for c in N.contribs if c.target == mat and c.rhs and c.rhs.startswith('sp.kron(')]
         ok = len(first) == 1 and len(kr) == 1 and kr[0].rhs == f"sp.kron({mat}, {lst}[i1], format='csc')" and repr(kr[0].loops[-1]) == f'i1=1..len({lst})-1'
         R.check(ok, f'{cn}.__init__ :: {mat} = kron(...kron({lst}[0], {lst}[1])..., {lst}[d-1])', w, f'{mat} = {lst}[0]; for i in 1..d-1: {mat} = kron({mat}, {lst}[i])', [c.describe()[:120] for c in first + kr])
+
+
+def _isinstance_chain(stmt):
+    """[(variable, class expr, If node)] along an if/elif chain of isinstance()/type().__name__ tests"""
+    out = []
+    cur = stmt
+    while isinstance(cur, ast.If):
+        t = cur.test
+        if isinstance(t, ast.Call) and ast.unparse(t.func) == 'isinstance' and len(t.args) == 2:
+            out.append((ast.unparse(t.args[0]), t.args[1], cur))
+        else:
+            out.append((None, t, cur))
+        cur = cur.orelse[0] if len(cur.orelse) == 1 and isinstance(cur.orelse[0], ast.If) else None
+    return out
+
+
+@rule('C11', 'C11.R6', 'data-type dispatch: no arm of an isinstance chain is shadowed by an earlier arm testing one of its base classes; the chain ends in a raising else', floor=4)
+def r6(ctx, R):
+    repo = ctx.repo
+    for rel, cn in CLASSES[:3]:
+        ci = repo.cls(rel, cn)
+        for meth in ('restrict', 'prolong'):
+            fn = ci.methods[meth]
+            w = f'{rel}:{cn}.{meth}'
+            chains = [s for s in walk_no_nested(fn) if isinstance(s, ast.If) and ('isinstance' in ast.unparse(s.test) or '__name__' in ast.unparse(s.test))]
+            inner = {id(c.orelse[0]) for c in chains if len(c.orelse) == 1}
+            heads = [c for c in chains if id(c) not in inner]
+            if not heads:
+                R.exc(f'{cn}.{meth} :: generic over the data type (no dispatch)', w, 'uses type(arg) and .components')
+                continue
+            for h in heads:
+                R.fn(w)
+                ch = _isinstance_chain(h)
+                shadowed = []
+                seen = []
+                for var, cexpr, node in ch:
+                    if var is None:
+                        continue
+                    names = [ast.unparse(e) for e in (cexpr.elts if isinstance(cexpr, ast.Tuple) else [cexpr])]
+                    cls = [repo.resolve_name(ci.module, n) for n in names]
+                    # a condition of the form `isinstance(x, A) and not isinstance(x, B)` is not a plain arm: handled as opaque
+                    for c, n in zip(cls, names):
+                        if c is None:
+                            continue
+                        for pv, pc, pn in seen:
+                            if pv == var and pc is not None and repo.is_subclass(c, pc):
+                                shadowed.append(f'isinstance({var}, {n}) after isinstance({pv}, {pn}): {n} is a subclass of {pn}')
+                    seen += [(var, c, n) for c, n in zip(cls, names)]
+                last = ch[-1][2]
+                raising = bool(last.orelse) and any(isinstance(x, ast.Raise) for x in last.orelse)
+                R.check(not shadowed and raising, f'{cn}.{meth} :: every data-type arm is reachable; unknown types raise', w, 'subclass arms before base-class arms (or exact-type tests); else: raise TransferError', {'shadowed': shadowed, 'raising_else': raising})
+
+
+@rule('C11', 'C11.R7', 'BaseTransfer: Pcoll interpolates coarse->fine nodes, Rcoll fine->coarse nodes (Lagrange on the SOURCE nodes evaluated at the TARGET nodes); the identity shortcut requires equal node sets; restriction uses Rcoll, prolongation Pcoll', floor=6)
+def r7(ctx, R):
+    repo = ctx.repo
+    rel = 'pySDC/core/base_transfer.py'
+    fn = repo.func(rel, 'BaseTransfer.__init__')
+    w = f'{rel}:BaseTransfer.__init__'
+    R.fn(w)
+    N = Normalizer(fn, inline_scalars=False)
+    al = {c.target: c.rhs for c in N.contribs if c.target in ('fine_grid', 'coarse_grid')}
+    R.check(al == {'fine_grid': 'self.fine.sweep.coll.nodes', 'coarse_grid': 'self.coarse.sweep.coll.nodes'}, 'BaseTransfer.__init__ :: node sets are those of the two levels', w, 'fine_grid = fine nodes; coarse_grid = coarse nodes', al)
+    ass = {}
+    for s in walk_no_nested(fn):
+        if isinstance(s, (ast.Assign, ast.AnnAssign)):
+            t = s.targets[0] if isinstance(s, ast.Assign) else s.target
+            if ast.unparse(t) in ('self.Pcoll', 'self.Rcoll') and s.value is not None:
+                ass.setdefault(ast.unparse(t), []).append(s)
+    cfg = FuncCFG(fn)
+    gen = {k: [ast.unparse(s.value) for s in v if 'get_transfer_matrix_Q' in ast.unparse(s.value)] for k, v in ass.items()}
+    R.check(gen == {'self.Pcoll': ['self.get_transfer_matrix_Q(fine_grid, coarse_grid)'], 'self.Rcoll': ['self.get_transfer_matrix_Q(coarse_grid, fine_grid)']}, 'BaseTransfer.__init__ :: Pcoll = T(target=fine, source=coarse), Rcoll = T(target=coarse, source=fine)', w, 'Pcoll = get_transfer_matrix_Q(fine_grid, coarse_grid); Rcoll = get_transfer_matrix_Q(coarse_grid, fine_grid)', gen)
+    short = [s for v in ass.values() for s in v if 'eye' in ast.unparse(s.value)]
+    for s in short:
+        g = [ast.unparse(t) for t, pol in cfg.guards[id(s)] if pol]
+        txt = ' and '.join(g)
+        eq = any(k in txt for k in ('allclose(', 'array_equal(', 'all(fine_grid == coarse_grid', 'np.all('))
+        R.check(eq, f"BaseTransfer.__init__ :: identity shortcut for {ast.unparse(s.target if isinstance(s, ast.AnnAssign) else s.targets[0])} only when the node SETS coincide", w, 'guard compares the node values (np.allclose / np.array_equal), not only their count', g)
+    gq = repo.func(rel, 'BaseTransfer.get_transfer_matrix_Q')
+    w2 = f'{rel}:BaseTransfer.get_transfer_matrix_Q'
+    R.fn(w2)
+    Nq = Normalizer(gq, inline_scalars=True)
+    rets = [ast.unparse(s.value) for s in walk_no_nested(gq) if isinstance(s, ast.Return)]
+    body = [ast.unparse(s) for s in walk_no_nested(gq) if isinstance(s, (ast.Assign, ast.Return))]
+    pars = [a.arg for a in gq.args.args]
+    ok = pars == ['f_nodes', 'c_nodes'] and body in (['approx = LagrangeApproximation(c_nodes)', 'return approx.getInterpolationMatrix(f_nodes)'], ['return LagrangeApproximation(c_nodes).getInterpolationMatrix(f_nodes)'])
+    R.check(ok, 'get_transfer_matrix_Q(f_nodes, c_nodes) :: Lagrange basis on the source nodes c_nodes, evaluated at the target nodes f_nodes', w2, 'LagrangeApproximation(c_nodes).getInterpolationMatrix(f_nodes)', body)
+    ci = repo.cls(rel, 'BaseTransfer')
+    for meth, mat in (('restrict', 'Rcoll'), ('prolong', 'Pcoll'), ('prolong_f', 'Pcoll')):
+        f2 = ci.methods.get(meth)
+        if f2 is None:
+            raise AnalysisError(f'BaseTransfer.{meth} vanished')
+        used = sorted({x.attr for x in ast.walk(f2) if isinstance(x, ast.Attribute) and x.attr in ('Rcoll', 'Pcoll')})
+        sp_ = sorted({x.attr for x in ast.walk(f2) if isinstance(x, ast.Attribute) and x.attr in ('restrict', 'prolong') and ast.unparse(x.value) == 'self.space_transfer'})
+        want_sp = ['restrict'] if meth == 'restrict' else ['prolong']
+        R.fn(f'{rel}:BaseTransfer.{meth}')
+        R.check(used == [mat] and sp_ == want_sp, f'BaseTransfer.{meth} :: node transfer with {mat}, space transfer with space_transfer.{want_sp[0]}', f'{rel}:BaseTransfer.{meth}', {'coll': [mat], 'space': want_sp}, {'coll': used, 'space': sp_})
